@@ -304,6 +304,35 @@ def generate(rng: random.Random, tier: str):
                 yield helper_case(rng, fam, g, doc, docs, helper, fixed)
             for _ in range(16 if quick else 60):
                 yield helper_case(rng, fam, g, doc, docs, rng.choice(HELPERS))
+    # drop_point(doc, pos, slice): the implementation's answer against Model.DropPoint (both passes: content that fits
+    # as it is, closed content whose first node fits once wrapped), at every kind of position
+    for fam in gen.FAMILY:
+        g, docs = S.family_docs(rng, fam, 5 if quick else 60)
+        info = S.info_for(fam)
+        sc = gen.family(fam)
+        for doc in docs:
+            ps = S.boundary_positions(doc)
+            for _ in range(8 if quick else 30):
+                pos = rng.choice(ps)
+                r = rng.random()
+                if r < 0.5:
+                    sl = g.slice_from(rng.choice(docs))
+                elif r < 0.8:
+                    # closed slices of one or two nodes: paragraphs, list items, text - what gets wrapped in pass two
+                    src = rng.choice(docs)
+                    pool = [n for _, n in S.all_positions_with_nodes(src) if not n.is_text]
+                    kids = [rng.choice(pool)] if pool else []
+                    if rng.random() < 0.3:
+                        kids = [sc.text("dropped")]
+                    sl = Slice(Fragment.from_(kids), 0, 0)
+                else:
+                    sl = Slice.empty
+                yield Case(coq=f"CStruct @S@ {info.node(doc)} (QDropPoint {nat(pos)} {info.slice(sl)}) "
+                               f"{_answer(info, lambda: structure.drop_point(doc, pos, sl), 'optnat')[0]}",
+                           desc={"case": "struct", "family": fam, "doc": doc.to_json(),
+                                 "query": {"q": "drop_point", "pos": pos, "slice": gen.slice_to_json(sl)},
+                                 "answer": str(_answer(info, lambda: structure.drop_point(doc, pos, sl), 'optnat')[1])},
+                           schema=info.schema_term(), kind="struct:drop_point", nontrivial=True)
 
 
 def rebuild(desc):
